@@ -161,6 +161,7 @@ def run(ctx):
         ctx.add_result(Result('C18.qset.__contains__', 'unknown', detail=f'outside subset: {e}'))
     slice_count_obligation(ctx)
     bounded_sequences(ctx)
+    bounded_hook_check(ctx)
     bounded_slices(ctx)
     ctx.replayers['C18.linked.'] = replay_slices
     ctx.replayers['C18.'] = lambda r: dict(reproduced=None, detail='invariant-based obligation; see solver model')
@@ -419,97 +420,178 @@ def bounded_sequences(ctx):
     pf = predicates_sequences(ctx, depth, rnd)
     total += pf[0]; distinct |= pf[1]
     for k, v in pf[2].items(): fails[k] = v
-    ctx.bounded_part(evaluations=total, distinct_nontrivial=len(distinct), rule='operation sequences over values {0,1,2,3} on qset and linqset (and Predicates over 4 predicates) from the empty container; after every step iteration order, length, membership, index(), item access and reversed() are compared with a plain list-without-duplicates model, and a raising single-element operation must leave the container unchanged; distinct = distinct (container kind, end state)',
+    ctx.bounded_part(evaluations=total, distinct_nontrivial=len(distinct), rule='operation sequences over values {0,1,2,3} on qset and linqset (and Predicates over 5 predicates, two symbols in two arities, including slice assignment and deletion) from the empty container; after every step iteration order, length, membership, index(), item access and reversed() are compared with a plain list-without-duplicates model, and a raising single-element operation must leave the container unchanged; distinct = distinct (container kind, end state)',
                      bound=f'all sequences of length {depth} over ~30 operations per kind (sampled to 40000 per kind when more)', samples=[dict(kind='qset', ops=['append 0', 'insert 0 3', 'setitem 0 2'])] + [dict(kind=k[0], history=[f'{o} {a}' for o, a in v[0]], problem=v[1]) for k, v in list(fails.items())[:3]], label='operation sequences')
     for (kind, op, args), (hist, problem) in sorted(fails.items()):
         ctx.bounded_failure(f'C18.bounded.{kind}.{op}', f'{kind}: after {[(o, a) for o, a in hist]}: {problem}', dict(kind=kind, history=[[o, repr(a)] for o, a in hist], problem=problem), instance=f'{op}{args}')
 
+PRED_SPECS = [(0, 0, 1), (0, 0, 2), (1, 0, 1), (1, 0, 2), (1, 1, 3)]
+PRED_OPS = ([('append', (k,)) for k in range(5)] + [('add', (k,)) for k in range(5)] + [('remove', (0,)), ('remove', (1,)), ('discard', (2,)), ('delitem', (0,)), ('setitem', (0, 1)), ('setitem', (0, 2)),
+             ('setitem', (1, 3)), ('clear', ()), ('insert', (0, 4)), ('reverse', ()), ('sort', ()), ('setslice', (0, 2, (1, 3))), ('setslice', (0, 2, (0, 1))), ('setslice', (1, 3, (3, 1))), ('setslice', (0, 2, (3, 0))),
+             ('setslice', (0, 1, (1,))), ('setslice', (1, 2, (3,))), ('delslice', (0, 2))])
+
+def _preds():
+    from pytableaux.lang import Predicate
+    return [Predicate(*s) for s in PRED_SPECS]
+
+def pred_conflict(p, others):
+    """the property's clause: p shares a symbol (index, subscript) with a different predicate among `others`"""
+    return any(q.bicoords == p.bicoords and q != p for q in others)
+
+def pred_step(c, L, op, args, P):
+    """one operation on the real store `c` and on the model list `L`; returns (new model, problem or None)."""
+    before = list(c)
+    exc_ref = None
+    M = list(L)
+    try:
+        if op in ('append', 'add', 'insert'):
+            p = P[args[-1]]
+            if p in M:
+                if op != 'add': raise ValueError('dup')
+            elif pred_conflict(p, M): raise ValueError('conflict')
+            else:
+                if op == 'insert': M.insert(args[0], p)
+                else: M.append(p)
+        elif op == 'remove':
+            if P[args[0]] not in M: raise ValueError('missing')
+            M.remove(P[args[0]])
+        elif op == 'discard':
+            if P[args[0]] in M: M.remove(P[args[0]])
+        elif op == 'delitem':
+            if not M: raise ValueError('index')
+            del M[args[0]]
+        elif op == 'delslice': del M[args[0]:args[1]]
+        elif op == 'setitem':
+            if len(M) <= args[0]: raise ValueError('index')
+            p = P[args[1]]; old = M[args[0]]
+            if p in M and p != old: raise ValueError('dup')
+            if pred_conflict(p, [q for q in M if q != old]): raise ValueError('conflict')
+            M[args[0]] = p
+        elif op == 'setslice':
+            vals = [P[k] for k in args[2]]; leaving = M[args[0]:args[1]]; staying = [q for q in M if q not in leaving]
+            if len(leaving) != len(vals): raise ValueError('size')      # the containers take same-size slice assignment only
+            if len(set(vals)) != len(vals) or any(v in staying for v in vals): raise ValueError('dup')
+            if any(pred_conflict(v, staying + vals) for v in vals): raise ValueError('conflict')
+            M[args[0]:args[1]] = vals
+        elif op == 'clear': M = []
+        elif op == 'reverse': M.reverse()
+        elif op == 'sort': M.sort()
+    except ValueError as e: exc_ref = str(e)
+    exc_real = None
+    try:
+        if op in ('append', 'add'): getattr(c, op)(P[args[0]])
+        elif op == 'insert': c.insert(args[0], P[args[1]])
+        elif op == 'remove': c.remove(P[args[0]])
+        elif op == 'discard': c.discard(P[args[0]])
+        elif op == 'delitem': del c[args[0]]
+        elif op == 'delslice': del c[args[0]:args[1]]
+        elif op == 'setitem': c[args[0]] = P[args[1]]
+        elif op == 'setslice': c[args[0]:args[1]] = [P[k] for k in args[2]]
+        else: getattr(c, op)()
+    except Exception as e: exc_real = type(e).__name__
+    if exc_ref is None: L = M
+    problem = None
+    if (exc_real is None) != (exc_ref is None): problem = f'raises {exc_real} vs model {exc_ref}'
+    elif list(c) != L: problem = f'items {[q.spec for q in c]} vs model {[q.spec for q in L]}'
+    elif exc_real and list(c) != before: problem = 'a raising operation changed the store'
+    else:
+        # lookup by every reference; no two members share a symbol with different arity
+        for p in L:
+            for ref in (p, p.spec, p.ident, p.bicoords):
+                try:
+                    if c.get(ref) != p: problem = f'get({ref}) != {p.spec}'
+                except KeyError: problem = f'get({ref}) raises KeyError'
+        for p in P:
+            if p not in L:
+                for ref in (p.spec, p.ident):
+                    try:
+                        c.get(ref); problem = f'get({ref}) finds a non-member'
+                    except KeyError: pass
+        if len({q.bicoords for q in L}) != len(L): problem = 'two members share a symbol'
+    return L, problem
+
 def predicates_sequences(ctx, depth, rnd):
-    from pytableaux.lang import Predicate, Predicates
-    P = [Predicate(0, 0, 1), Predicate(0, 0, 2), Predicate(1, 0, 1), Predicate(1, 1, 3)]
-    ops = [('append', (k,)) for k in range(4)] + [('add', (k,)) for k in range(4)] + [('remove', (0,)), ('remove', (1,)), ('discard', (2,)), ('delitem', (0,)), ('setitem', (0, 1)), ('setitem', (0, 2)), ('clear', ()), ('insert', (0, 3)), ('reverse', ()), ('sort', ())]
+    from pytableaux.lang import Predicates
+    P = _preds(); ops = PRED_OPS
     total = 0; distinct = set(); fails = {}
     seqs = list(itertools.product(range(len(ops)), repeat=depth))
-    if len(seqs) > 20000: seqs = rnd.sample(seqs, 20000)
+    if len(seqs) > 30000: seqs = rnd.sample(seqs, 30000)
     for seq in seqs:
         c = Predicates(); L = []
         hist = []
         for oi in seq:
             op, args = ops[oi]; hist.append((op, args))
-            before = list(c)
             total += 1
-            def conflict(p, leaving=()):
-                return any(q.bicoords == p.bicoords and q.arity != p.arity for q in L if q not in leaving)
-            exc_ref = None
-            M = list(L)
-            try:
-                if op in ('append', 'add', 'insert'):
-                    p = P[args[-1]]
-                    if p in M:
-                        if op != 'add': raise ValueError('dup')
-                    elif conflict(p): raise ValueError('conflict')
-                    else:
-                        if op == 'insert': M.insert(args[0], p)
-                        else: M.append(p)
-                elif op == 'remove':
-                    if P[args[0]] not in M: raise ValueError('missing')
-                    M.remove(P[args[0]])
-                elif op == 'discard':
-                    if P[args[0]] in M: M.remove(P[args[0]])
-                elif op == 'delitem':
-                    if not M: raise ValueError('index')
-                    del M[args[0]]
-                elif op == 'setitem':
-                    if not M: raise ValueError('index')
-                    p = P[args[1]]; old = M[args[0]]
-                    if p in M and p != old: raise ValueError('dup')
-                    if conflict(p, (old,)): raise ValueError('conflict')
-                    M[args[0]] = p
-                elif op == 'clear': M = []
-                elif op == 'reverse': M.reverse()
-                elif op == 'sort': M.sort()
-            except ValueError as e: exc_ref = str(e)
-            exc_real = None
-            try:
-                if op in ('append', 'add'): getattr(c, op)(P[args[0]])
-                elif op == 'insert': c.insert(args[0], P[args[1]])
-                elif op == 'remove': c.remove(P[args[0]])
-                elif op == 'discard': c.discard(P[args[0]])
-                elif op == 'delitem': del c[args[0]]
-                elif op == 'setitem': c[args[0]] = P[args[1]]
-                else: getattr(c, op)()
-            except Exception as e: exc_real = type(e).__name__
-            if exc_ref is None: L = M
-            problem = None
-            if (exc_real is None) != (exc_ref is None): problem = f'raises {exc_real} vs model {exc_ref}'
-            elif list(c) != L: problem = f'items {list(map(str, c))} vs model {list(map(str, L))}'
-            elif exc_real and list(c) != before: problem = 'a raising operation changed the store'
-            else:
-                # lookup by every reference; no two members share a symbol with different arity
-                for p in L:
-                    for ref in (p, p.spec, p.ident, p.bicoords):
-                        try:
-                            if c.get(ref) != p: problem = f'get({ref}) != {p}'
-                        except KeyError: problem = f'get({ref}) raises KeyError'
-                for p in P:
-                    if p not in L:
-                        for ref in (p.spec, p.ident):
-                            try:
-                                c.get(ref); problem = f'get({ref}) finds a non-member'
-                            except KeyError: pass
-                if len({q.bicoords for q in L}) != len(L): problem = 'two members share a symbol'
+            try: L, problem = pred_step(c, L, op, args, P)
+            except Exception as e: problem = f'observation raises {type(e).__name__}: {e}'
             if problem:
                 key = ('Predicates', op, repr(args))
                 if key not in fails or len(hist) < len(fails[key][0]): fails[key] = (list(hist), problem)
                 break
-        distinct.add(('Predicates', tuple(map(str, L))))
+        distinct.add(('Predicates', tuple(q.spec for q in L)))
     return total, distinct, fails
+
+def hook_check_expected(store, arriving, leaving):
+    staying = [q for q in store if q not in leaving]
+    return any(pred_conflict(a, staying + list(arriving)) for a in arriving)
+
+def hook_check_real(store, arriving, leaving):
+    from pytableaux.lang import Predicates
+    c = Predicates(store)
+    try: c._hook_check(tuple(arriving), tuple(leaving))
+    except ValueError: raised = True
+    else: raised = False
+    return raised, list(c) == list(store)
+
+def bounded_hook_check(ctx):
+    """Predicates._hook_check called directly (its callers hand it the arriving and the leaving members before anything is written):
+    it must raise exactly when an arriving predicate shares a symbol with a different predicate that stays or arrives with it."""
+    P = _preds()
+    total = 0; distinct = set(); fails = []
+    stores = [st for n in range(0, 4) for st in itertools.permutations(P, n) if len({q.bicoords for q in st}) == len(st)]
+    for st in stores:
+        for k in range(0, 3):
+            for lv in itertools.combinations(st, k):
+                for n in range(1, 3):
+                    for arr in itertools.permutations(P, n):
+                        if any(a in st and a not in lv for a in arr): continue      # callers reject duplicates before the hook
+                        total += 1
+                        want = hook_check_expected(st, arr, lv)
+                        try: got, same = hook_check_real(st, arr, lv)
+                        except Exception as e: got, same = f'{type(e).__name__}: {e}', True
+                        distinct.add((len(st), k, n, want))
+                        if got != want or not same:
+                            if len(fails) < 50: fails.append(dict(store=[q.spec for q in st], arriving=[q.spec for q in arr], leaving=[q.spec for q in lv], raises=got, expected=want, unchanged=same))
+    ctx.bounded_part(evaluations=total, distinct_nontrivial=len(distinct), rule='Predicates._hook_check(arriving, leaving) on every conflict-free store of <= 3 of 5 predicates (two symbols with two arities each, one more), every <= 2 leaving members and every <= 2 arriving predicates: raises (and writes nothing) exactly when an arriving predicate shares its symbol with a different predicate that stays in the store or arrives with it',
+                     bound='stores <= 3, leaving <= 2, arriving <= 2 over 5 predicates', samples=fails[:3] or [dict(store=[(0, 0, 1), (1, 0, 1)], arriving=[(0, 0, 2), (1, 0, 2)], leaving=[(0, 0, 1)], expected=True)], label='predicate store conflict check')
+    fails.sort(key=lambda f: (len(f['store']) + len(f['arriving']) + len(f['leaving']), repr(f)))
+    seen = set()
+    for f in fails:
+        shape = ('mixed' if f['leaving'] else 'arriving-only') if f['expected'] is True else 'spurious'
+        if shape in seen: continue
+        seen.add(shape)
+        ctx.bounded_failure(f'C18.bounded.Predicates.hook_check.{shape}', f"Predicates {f['store']}._hook_check(arriving={f['arriving']}, leaving={f['leaving']}) raises={f['raises']}, expected {f['expected']}",
+                            dict(kind='Predicates.hook', **f), instance=repr((f['store'], f['arriving'], f['leaving'])))
 
 def replay(payload):
     if payload.get('kind') == 'bounded':
         f = payload['input']
         from pytableaux.tools.hybrids import qset
         from pytableaux.tools.linked import linqset
+        if f['kind'] == 'Predicates.hook':
+            from pytableaux.lang import Predicate
+            mk = lambda xs: [Predicate(*x) for x in xs]
+            st, arr, lv = mk(f['store']), mk(f['arriving']), mk(f['leaving'])
+            got, same = hook_check_real(st, arr, lv); want = hook_check_expected(st, arr, lv)
+            return dict(reproduced=bool(got != want or not same), detail=f'_hook_check raises={got}, expected {want}; store unchanged={same}')
+        if f['kind'] == 'Predicates':
+            from pytableaux.lang import Predicates
+            P = _preds(); c = Predicates(); L = []; problem = None
+            for op, a in f['history']:
+                try: L, problem = pred_step(c, L, op, eval(a), P)
+                except Exception as e: problem = f'observation raises {type(e).__name__}: {e}'
+                if problem: break
+            return dict(reproduced=bool(problem), detail=f'{problem}; store {[q.spec for q in c]}')
         if f['kind'] not in ('qset', 'linqset'): return dict(reproduced=None, detail=f['problem'])
         c = {'qset': qset, 'linqset': linqset}[f['kind']](); r = Ref()
         last = None
